@@ -122,7 +122,11 @@ class FakeTime:
     def now(self):
         return self.t
 
-    time = now
+    time = monotonic = perf_counter = now
+
+    def __getattr__(self, name):
+        from pysym.core import Unmodelled
+        raise Unmodelled('%s.%s is not modelled by the harness double' % (type(self).__name__, name))
 
     def sleep(self, d):
         over = self.cx.real('over%d' % self.k, 0, 1000)
